@@ -344,6 +344,9 @@ func genGL(t *rapid.T, hostile bool) glSpec {
 		// the identifier the WebVTT reader gives to the style holding a file's STYLE blocks, among identifiers sorting
 		// on either side of it (a list read from a .vtt file to which the caller added styles)
 		ids = []string{"a", "astisub-webvtt-default-style-id", "B", "s1", "0", "astisub"}
+	} else if rapid.IntRange(0, 4).Draw(t, "blankids") == 0 {
+		// names as SSA scripts have them: blanks inside, a tab, a leading digit
+		ids = []string{"Main Style", "Main  Style", "a\tb", "1 st", "Default", "sign top"}
 	}
 	ns := rapid.IntRange(0, 6).Draw(t, "nstyles")
 	css := []string{"::cue { color: red }", "::cue(b) { }", "/* x */ ::cue(.loud) { font-size: 2em }"}
